@@ -355,7 +355,8 @@ namespace sim
 				// we already read an address of length 4, assuming it was an IPv4
 				// address. Now, with a domain name, one of those bytes was the
 				// length-prefix, but we still read 3 bytes already.
-				const int additional_bytes = len - 3;
+				// names shorter than 3 characters are already complete
+				const int additional_bytes = (std::max)(0, len - 3);
 				asio::async_read(m_client_connection, asio::buffer(&m_out_buffer[10], additional_bytes)
 					, std::bind(&socks_connection::on_request_domain_name
 						, shared_from_this(), std::placeholders::_1, std::placeholders::_2));
@@ -384,7 +385,10 @@ namespace sim
 			return;
 		}
 
-		int const buffer_size = int(10 + bytes_transferred);
+		// VER CMD RSV ATYP LEN name PORT: the port follows the name, whether or
+		// not more than the first 10 bytes had to be read
+		(void)bytes_transferred;
+		int const buffer_size = 7 + std::uint8_t(m_out_buffer[4]);
 
 		std::uint16_t port = m_out_buffer[buffer_size - 2] & 0xff;
 		port <<= 8;
